@@ -21,6 +21,7 @@ SqlSyntaxError      the text is not a statement of the dialect's grammar (as far
 ServerError         the modelled server refuses the statement at run time by a documented rule (e.g. PG: boolean = integer)
 """
 import re
+import json
 import decimal
 import functools
 
@@ -172,6 +173,11 @@ def tokenize(sql, P, raw=False):
             m = re.compile(r'\$(\d+)').match(sql, i)
             toks.append(('ph', int(m.group(1)) - 1))
             i = m.end()
+            continue
+        if c == '#' and P.has_json_path_ops and sql.startswith('#>', i):
+            op = '#>>' if sql.startswith('#>>', i) else '#>'
+            toks.append(('op', op))
+            i += len(op)
             continue
         two = sql[i:i + 2]
         if two in _OPS2:
@@ -698,6 +704,76 @@ class Row(tuple):
     """a row value"""
 
 
+class JsonVal(object):
+    """a value of the server's JSON type (PostgreSQL jsonb, MySQL / MariaDB JSON): the decoded document"""
+    __slots__ = ('value',)
+
+    def __init__(self, value):
+        self.value = value
+
+    def key(self):
+        def norm(v):
+            if isinstance(v, bool) or v is None or isinstance(v, str):
+                return v
+            if isinstance(v, (int, float)):
+                return float(v)          # PG 8.14.4: jsonb numbers compare numerically (1 = 1.0)
+            if isinstance(v, list):
+                return [norm(x) for x in v]
+            return {k: norm(x) for k, x in v.items()}
+        return json.dumps(norm(self.value), sort_keys=True)
+
+    def __eq__(self, other):
+        return isinstance(other, JsonVal) and self.key() == other.key()
+
+    def __ne__(self, other):
+        return not self.__eq__(other)
+
+    def __hash__(self):
+        return hash(self.key())
+
+    def __repr__(self):
+        return 'JsonVal(%r)' % (self.value,)
+
+    def text(self):
+        return json.dumps(self.value)
+
+    def is_number(self):
+        return isinstance(self.value, (int, float)) and not isinstance(self.value, bool)
+
+
+def json_path_get(doc, steps):
+    """object key / array index steps; -> (found, value)"""
+    for st_ in steps:
+        if isinstance(st_, int) and isinstance(doc, list):
+            if -len(doc) <= st_ < len(doc):
+                doc = doc[st_]
+            else:
+                return False, None
+        elif isinstance(st_, str) and isinstance(doc, dict) and st_ in doc:
+            doc = doc[st_]
+        else:
+            return False, None
+    return True, doc
+
+
+_SIMPLE_KEY = re.compile(r'[A-Za-z_][A-Za-z0-9_]*\Z')
+
+
+def dollar_path(path):
+    """'$.a.b[0]' (SQLite json1 / MySQL / MariaDB path syntax, simple keys only) -> steps"""
+    if not isinstance(path, str) or not path.startswith('$'):
+        raise Unmodelled('JSON path %r' % (path,))
+    steps = []
+    i = 1
+    while i < len(path):
+        m = re.compile(r'\.([A-Za-z_][A-Za-z0-9_]*)|\[(\d+)\]').match(path, i)
+        if not m:
+            raise Unmodelled('JSON path %r' % (path,))
+        steps.append(m.group(1) if m.group(1) is not None else int(m.group(2)))
+        i = m.end()
+    return steps
+
+
 def _is_num(v):
     return isinstance(v, (int, float, Decimal)) and not isinstance(v, bool)
 
@@ -720,6 +796,8 @@ class Personality(object):
     trim_from_syntax = True
     empty_string_is_null = False
     has_div_operator = False
+    has_rowid = False
+    has_json_path_ops = False
     derived_table_needs_alias = False   # sqlite lang_select; PG 16 release notes ("allow subqueries in the FROM clause to omit aliases"); ORA SELECT
     # binding powers
     bp_or, bp_and, bp_not, bp_is, cmp_word_bp, bp_unary = 10, 20, 30, 40, 40, 80
@@ -756,25 +834,31 @@ class Personality(object):
         raise Unmodelled('%s: truth value of %r' % (self.name, v))
 
     # ---- comparison
-    def str_cmp(self, a, b):
+    def str_cmp(self, a, b, eq_only=False):
         return (a > b) - (a < b)
 
     def str_key(self, s):
         """key under which equal strings fall together in DISTINCT / GROUP BY"""
         return s
 
-    def compare(self, a, b):
-        """-1/0/1, or None when an operand is NULL"""
+    def compare(self, a, b, eq_only=False):
+        """-1/0/1, or None when an operand is NULL; eq_only: the caller only asks whether the values are equal"""
         if a is None or b is None:
             return None
         if isinstance(a, Row) or isinstance(b, Row):
             return self.compare_rows(a, b)
+        if isinstance(a, JsonVal) and isinstance(b, JsonVal):
+            if a == b:
+                return 0
+            if a.is_number() and b.is_number():
+                return (a.value > b.value) - (a.value < b.value)
+            raise Unmodelled('%s: ordering of JSON values' % self.name)
         if isinstance(a, bool) or isinstance(b, bool):
             return self.compare_bool(a, b)
         if _is_num(a) and _is_num(b):
             return (a > b) - (a < b)
         if isinstance(a, str) and isinstance(b, str):
-            return self.str_cmp(a, b)
+            return self.str_cmp(a, b, eq_only)
         raise Unmodelled('%s: comparison of %s with %s' % (self.name, type(a).__name__, type(b).__name__))
 
     def compare_bool(self, a, b):
@@ -791,7 +875,7 @@ class Personality(object):
         if op in ('=', '<>'):
             res = True
             for x, y in zip(a, b):
-                c = self.compare(x, y)
+                c = self.compare(x, y, True)
                 r = None if c is None else (c == 0)
                 if r is False:
                     res = False
@@ -845,6 +929,9 @@ class Personality(object):
 
     def concat_op(self, a, b):
         raise Unmodelled('%s: ||' % self.name)
+
+    def json_path_op(self, op, a, b):
+        raise Unmodelled('%s: %s' % (self.name, op))
 
     def negate(self, a):
         if a is None:
@@ -974,6 +1061,7 @@ class SqlitePersonality(Personality):
     """SQLite 3.40 as configured by pony (PRAGMA case_sensitive_like = true; UDFs py_upper, py_lower, py_string_slice).
     Not trusted text: validated against the live library on every case."""
     name = 'sqlite'
+    has_rowid = True
     in_values_syntax = True
     trim_from_syntax = False
     nulls_first = True
@@ -1090,6 +1178,31 @@ class SqlitePersonality(Personality):
                 p1 = 0
         return s[p1:p1 + p2]
 
+    def fn_json_extract(self, doc, *paths):
+        # json1.html json_extract(X,P1,P2,...): one path: SQL NULL / INTEGER / REAL / TEXT for null / true,false,numbers / strings,
+        # minified JSON text for arrays and objects; several paths: a JSON array text of the values
+        if doc is None or any(p is None for p in paths):
+            return None
+        self._str_args('json_extract', doc)
+        obj = json.loads(doc)
+        vals = []
+        for p in paths:
+            found, v = json_path_get(obj, dollar_path(p))
+            vals.append(v if found else None)
+        if len(paths) != 1:
+            return json.dumps(vals, separators=(',', ':'))
+        v = vals[0]
+        if isinstance(v, bool):
+            return int(v)
+        if isinstance(v, (list, dict)):
+            return json.dumps(v, separators=(',', ':'))
+        return v
+
+    def fn_py_json_unwrap(self, value):        # pony/orm/dbproviders/sqlite.py: py_json_unwrap
+        if isinstance(value, str) and value.startswith('[null,'):
+            return value[6:-1]
+        return None
+
     def fn_min(self, *args):      # scalar min(X,Y,...): NULL if any argument is NULL
         return self._extreme(args, -1)
 
@@ -1121,6 +1234,39 @@ class PostgresPersonality(Personality):
     bp_is, cmp_word_bp = 38, 45
     binop_bp = {'=': 40, '<>': 40, '!=': 40, '<': 40, '<=': 40, '>': 40, '>=': 40,
                 '||': 50, '+': 60, '-': 60, '*': 70, '/': 70, '%': 70, '::': 100}
+
+    has_json_path_ops = True
+    binop_bp = dict(binop_bp)
+    binop_bp.update({'#>': 50, '#>>': 50})     # PG 4.1.6: "any other operator"
+
+    def json_path_op(self, op, a, b):
+        # PG 9.16 table 9.45: jsonb #> text[] -> jsonb "extracts JSON sub-object at the specified path"; #>> "... as text";
+        # NULL when the path does not exist; #>> of a JSON null is SQL NULL, of a string its content, otherwise the JSON text
+        if a is None or b is None:
+            return None
+        if not isinstance(a, JsonVal) or not isinstance(b, str):
+            raise Unmodelled('postgres: %s applied to %s, %s' % (op, type(a).__name__, type(b).__name__))
+        # PG 8.15.2 array input syntax, simplest form only: {elem,elem}
+        if not re.fullmatch(r'\{[A-Za-z0-9_]*(,[A-Za-z0-9_]+)*\}', b):
+            raise Unmodelled('postgres: path array literal %r' % (b,))
+        steps = [x for x in b[1:-1].split(',')] if b != '{}' else []
+        doc = a.value
+        for st_ in steps:
+            if isinstance(doc, list) and re.fullmatch(r'-?\d+', st_):
+                found, doc = json_path_get(doc, [int(st_)])
+            elif isinstance(doc, dict):
+                found, doc = json_path_get(doc, [st_])
+            else:
+                found = False
+            if not found:
+                return None
+        if op == '#>':
+            return JsonVal(doc)
+        if doc is None:
+            return None
+        if isinstance(doc, str):
+            return doc
+        return JsonVal(doc).text() if not isinstance(doc, bool) else ('true' if doc else 'false')
 
     def fold_bare(self, w):
         return w.lower()          # PG 4.1.1: unquoted names are folded to lower case
@@ -1156,7 +1302,8 @@ class PostgresPersonality(Personality):
 
     def check_common_type(self, what, args):
         # PG 10.5 UNION, CASE and related constructs: boolean and numeric inputs have no common type
-        kinds = set('boolean' if isinstance(a, bool) else 'numeric' if _is_num(a) else 'text' for a in args if a is not None)
+        kinds = set('boolean' if isinstance(a, bool) else 'numeric' if _is_num(a) else 'jsonb' if isinstance(a, JsonVal) else 'text'
+                    for a in args if a is not None)
         if 'boolean' in kinds and len(kinds) > 1:
             raise ServerError('postgres: %s types %s cannot be matched' % (what, ' and '.join(sorted(kinds))))
 
@@ -1205,6 +1352,16 @@ class PostgresPersonality(Personality):
             if isinstance(v, bool):
                 return 'true' if v else 'false'     # PG 8.6
             return self._to_text(v)
+        if typ in ('jsonb', 'json'):
+            # PG 8.14: a string literal cast to jsonb is parsed as JSON text
+            if v is None or isinstance(v, JsonVal):
+                return v
+            if isinstance(v, str):
+                try:
+                    return JsonVal(json.loads(v))
+                except ValueError:
+                    raise ServerError('postgres: invalid input syntax for type json: %r' % (v,))
+            raise Unmodelled('postgres: cast of %r to jsonb' % (v,))
         if typ in ('boolean', 'bool'):
             if v is None or isinstance(v, bool):
                 return v
@@ -1334,12 +1491,14 @@ class MySQLPersonality(Personality):
     def _ci(self, s):
         return s.rstrip(' ').upper()
 
-    def str_cmp(self, a, b):
+    def str_cmp(self, a, b, eq_only=False):
         _ascii_only(a)
         _ascii_only(b)
         x, y = self._ci(a), self._ci(b)
         ci = (x > y) - (x < y)
         bi = (a > b) - (a < b)
+        if eq_only and (ci == 0) == (bi == 0):
+            return bi
         if ci != bi:
             raise CollationSensitive('mysql: %r vs %r compare as %d under utf8_general_ci (PAD SPACE) but %d in binary' % (a, b, ci, bi))
         return bi
@@ -1403,6 +1562,13 @@ class MySQLPersonality(Personality):
 
     def cast(self, v, typ):
         # MY 12.10 CAST: SIGNED [INTEGER], CHAR
+        if isinstance(v, JsonVal):
+            # MY 12.10 / 12.18: CAST(json AS CHAR) is the serialized JSON text; CAST(json number AS SIGNED) its value
+            if typ == 'char':
+                return v.text()
+            if typ in ('signed', 'signed integer') and isinstance(v.value, int) and not isinstance(v.value, bool):
+                return v.value
+            raise Unmodelled('mysql: CAST(JSON %r AS %s)' % (v.value, typ))
         if typ in ('signed', 'signed integer'):
             return self._to_int(v)
         if typ == 'char':
@@ -1434,6 +1600,28 @@ class MySQLPersonality(Personality):
         return None if s is None else s.lower()
 
     fn_lcase = fn_lower
+
+    def fn_json_extract(self, doc, path):
+        # MY 12.18.3 / KB JSON_EXTRACT(json_doc, path): the data selected by the path; NULL if an argument is NULL or the path
+        # does not locate a value
+        if doc is None or path is None:
+            return None
+        if isinstance(doc, str):
+            doc = JsonVal(json.loads(doc))
+        if not isinstance(doc, JsonVal):
+            raise Unmodelled('mysql: json_extract of %r' % (doc,))
+        found, v = json_path_get(doc.value, dollar_path(path))
+        return JsonVal(v) if found else None
+
+    def fn_json_unquote(self, v):
+        # MY 12.18.4 JSON_UNQUOTE: "Unquotes JSON value and returns the result as a utf8mb4 string"
+        if v is None:
+            return None
+        if isinstance(v, JsonVal):
+            return v.value if isinstance(v.value, str) else v.text()
+        if isinstance(v, str):
+            return v
+        raise Unmodelled('mysql: json_unquote of %r' % (v,))
 
     def fn_concat(self, *args):   # MY 12.8 CONCAT: "returns NULL if any argument is NULL"; numeric arguments are converted to strings
         if not args:
@@ -1533,6 +1721,7 @@ class OraclePersonality(Personality):
     """Oracle 19c, only as far as pony's ROWNUM paging wrapper needs it (C02 text level) and for SUBSTR / LENGTH (C25).
     ORA SQL Language Reference: "Nulls": a character value with a length of zero is NULL."""
     name = 'oracle'
+    has_rowid = True
     paramstyle = 'named'
     server_paramstyle = 'named'
     has_rownum = True
@@ -1706,6 +1895,11 @@ class Engine(object):
                 if len(set(cols)) != len(cols):
                     cols = [c if cols.count(c) == 1 or cols.index(c) == i else None for i, c in enumerate(cols)]
             colmap = {c: i for i, c in enumerate(cols) if c is not None}
+            if P.has_rowid and src['table'] is not None and 'ROWID' not in colmap:
+                # sqlite lang_createtable.html#rowid / ORA "ROWID Pseudocolumn": every row of a table has an identity that is
+                # unique within the table; only its distinctness is modelled (it must not be selected)
+                rows = [tuple(r) + (i + 1,) for i, r in enumerate(rows)]
+                colmap['ROWID'] = colmap['rowid'] = len(cols)
             if P.empty_string_is_null:
                 rows = [tuple(None if v == '' else v for v in r) for r in rows]
             alias = src['alias']
@@ -1812,6 +2006,8 @@ class Engine(object):
                     if e[1] is not None and a != e[1]:
                         continue
                     for c, idx in sorted(colmap.items(), key=lambda kv: kv[1]):
+                        if c in ('ROWID', 'rowid') and self.P.has_rowid:
+                            continue
                         row.append(None if r is None else r[idx])
                         if colnames is not None:
                             colnames.append(c)
@@ -1836,6 +2032,8 @@ class Engine(object):
             return ('b', v)
         if isinstance(v, Row):
             return ('r',) + tuple(self.group_key(x) for x in v)
+        if isinstance(v, JsonVal):
+            return ('j', v.key())
         if v is None:
             return ('n',)
         return ('v', v)
@@ -1903,6 +2101,8 @@ class Engine(object):
                 raise Unmodelled('row value in arithmetic')
             if e[1] == '||':
                 return P.concat_op(a, b)
+            if e[1] in ('#>', '#>>'):
+                return P.json_path_op(e[1], a, b)
             return P.arith(e[1], a, b)
         if k == 'neg':
             return P.negate(self.ev(e[1], scope, group))
@@ -1982,7 +2182,17 @@ class Engine(object):
         P = self.P
         if isinstance(a, Row) or isinstance(b, Row):
             return P.row_cmp(op, a, b)
-        c = P.compare(a, b)
+        if isinstance(a, JsonVal) or isinstance(b, JsonVal):
+            if a is None or b is None:
+                return None
+            if not (isinstance(a, JsonVal) and isinstance(b, JsonVal)):
+                raise Unmodelled('%s: comparison of a JSON value with %s' % (P.name, type(b if isinstance(a, JsonVal) else a).__name__))
+            if op in ('=', '<>'):
+                return (a == b) == (op == '=')      # PG 8.14.4 jsonb equality; structural, numbers numerically
+            if not (a.is_number() and b.is_number()):
+                raise Unmodelled('%s: ordering of JSON values' % P.name)
+            a, b = a.value, b.value
+        c = P.compare(a, b, op in ('=', '<>'))
         if c is None:
             return None
         return {'=': c == 0, '<>': c != 0, '<': c < 0, '<=': c <= 0, '>': c > 0, '>=': c >= 0}[op]
